@@ -116,6 +116,13 @@ public:
       if (md->isConst()) os << " const";
       if (md->getRefQualifier() == RQ_RValue) os << " &&";
     }
+    // functions with internal linkage (static / anonymous namespace) of different
+    // units may share name and signature: make the key unit-specific
+    if (!fd->isExternallyVisible() && !isa<CXXMethodDecl>(fd)) {
+      std::string f = fileOf(fd->getLocation());
+      size_t p = f.rfind('/');
+      os << " @" << (p == std::string::npos ? f : f.substr(p + 1));
+    }
     os.flush();
     return s;
   }
